@@ -85,6 +85,33 @@ pub fn spaces(tier: Tier) -> Vec<Space<'static>> {
     }
     let nv = crate::checks::scale::variants().len() as u64;
     sp.push(Space::new("scale-pairs (big documents and near-copies)", nv, |i, acc| crate::checks::scale::relation_row(i as usize, acc, 0)));
+    // strings: every ordered pair of a string alphabet built for prefix / terminator confusions, in
+    // all four text/binary configurations
+    {
+        let mut strs: Vec<String> = univ::sstr().clone();
+        for s in ["a b", "a!", "a ", "a\u{1f}", "foo", "foo bar", "foo!", "a#", "a\"b", "ab ", " a"] {
+            strs.push(s.to_string());
+        }
+        let docs2 = docs(strs.iter().flat_map(|s| [RVal::Str(s.clone()), RVal::Arr(vec![RVal::Str(s.clone())])]).collect());
+        let m = docs2.vals.len();
+        sp.push(Space::new("string-pairs x 4 text/binary configurations", m as u64, move |i, acc| {
+            let d = &docs2;
+            let i = i as usize;
+            let ti = d.texts[i].as_ref().unwrap().as_bytes();
+            for j in 0..m {
+                let tj = d.texts[j].as_ref().unwrap().as_bytes();
+                let exp = ref_cmp(&d.vals[i], &d.vals[j]);
+                for (cfg, a, b) in [("bin,bin", &d.bytes[i][..], &d.bytes[j][..]), ("text,bin", ti, &d.bytes[j][..]), ("bin,text", &d.bytes[i][..], tj), ("text,text", ti, tj)] {
+                    acc.eval();
+                    acc.nontrivial += 1;
+                    match guard(|| jsonb::compare(a, b)) {
+                        Ok(Ok(o)) if o == exp => {}
+                        other => acc.vio("compare-strings:differs-from-documented-order", || json!({"cfg": cfg, "a": d.texts[i], "b": d.texts[j], "expected": format!("{:?}", exp), "observed": format!("{:?}", other)})),
+                    }
+                }
+            }
+        }));
+    }
     // text / binary configurations on a subset
     let sub: Vec<usize> = (0..n).filter(|i| d.texts[*i].is_some()).step_by((n / if tier.thorough() { 900 } else { 400 }).max(1)).collect();
     let m = sub.len();
